@@ -143,7 +143,6 @@ class RngAnalysis:
                         ifn, branch = g
                         ok = self._guard_ok(ifn.test, seedname, branch)
                         summ.guards.append((ifn, ok, _unparse(ifn.test)))
-                        anchor = ifn
                     seeding.setdefault(fam, []).append(anchor)
                     summ.seeds.append((fam, st))
                 elif isinstance(tgt, FunctionInfo) and tgt.fq != fn.fq and seedname:
@@ -166,19 +165,31 @@ class RngAnalysis:
                         continue
                     fam = d.family
                     anchors = seeding.get(fam, [])
-                    if anchors and cfg.dominated_by(st, lambda n, a=anchors: any(n is x for x in a)):
+                    if anchors and self._seeded_before(cfg, st, anchors, seedname):
                         summ.covered.add(d)
                     else:
                         if anchors:
                             summ.notes.append(f"{fam} is seeded in {fn.qualname} but the seeding does not dominate the draw at line {d.line}")
                         summ.free.add(d)
         for fam, anchors in seeding.items():
-            if cfg.dominated_by(EXIT, lambda n, a=anchors: any(n is x for x in a)):
+            if self._seeded_before(cfg, EXIT, anchors, seedname):
                 summ.seeds_on_exit.add(fam)
         return summ
 
+    def _seeded_before(self, cfg, node, anchors, seedname):
+        """Every path from the entry to `node` on which nothing says `seed is None` passes a seeding statement.
+        (Edges that imply seed is None - the else edge of `if seed is not None`, the true edge of `if seed is None`,
+        also written `not (seed is None)` - are the paths on which there is nothing to seed from.)"""
+        def edge_ok(a, b, lab):
+            return not (isinstance(a, ast.If) and seedname and lab in ("T", "F") and self._none_test(a.test, seedname) == lab)
+
+        return node not in cfg.reachable(ENTRY, avoid=lambda n: n is not node and any(n is x for x in anchors), edge_ok=edge_ok)
+
     def _guard_ok(self, test, seedname, branch):
         """`seed is not None` guarding the true branch (or `seed is None` guarding the else branch)."""
+        nt = self._none_test(test, seedname)
+        if nt is not None:
+            return (nt == "F" and branch == "T") or (nt == "T" and branch == "F")
         if isinstance(test, ast.Compare) and len(test.ops) == 1 and isinstance(test.left, ast.Name) and test.left.id == seedname:
             c = test.comparators[0]
             if isinstance(c, ast.Constant) and c.value is None:
@@ -234,6 +245,10 @@ class RngAnalysis:
                 return "seedobj"
             tgt = self._resolve(fn, value)
             path = getattr(tgt, "path", None) if isinstance(tgt, External) else None
+            if path and path.startswith("random.") and path.count(".") == 1 and path.split(".")[1] not in TP.PY_RANDOM_NON_DRAW and path != "random.seed":
+                return "fn:PY"
+            if path and path.startswith("numpy.random.") and path.count(".") == 2 and path.split(".")[2] not in TP.NP_RANDOM_NON_DRAW and path.split(".")[2] not in ("seed", "mtrand"):
+                return "fn:NPG"
             if path is None and isinstance(tgt, ModuleInfo):
                 path = tgt.name
             if path in ("numpy.random", "numpy.random.mtrand", "numpy.random.mtrand._rand"):
@@ -260,6 +275,9 @@ class RngAnalysis:
     @staticmethod
     def _none_test(test, seedname):
         """'T' when the test being true means `seed is None`, 'F' when it being false means that, else None."""
+        if isinstance(test, ast.UnaryOp) and isinstance(test.op, ast.Not):
+            inner = RngAnalysis._none_test(test.operand, seedname)
+            return {"T": "F", "F": "T"}.get(inner)
         if isinstance(test, ast.Compare) and len(test.ops) == 1 and isinstance(test.left, ast.Name) and test.left.id == seedname and isinstance(test.comparators[0], ast.Constant) and test.comparators[0].value is None:
             if isinstance(test.ops[0], (ast.Is, ast.Eq)):
                 return "T"
@@ -295,6 +313,13 @@ class RngAnalysis:
         f = call.func
         out = []
         site = (fn.qualname, call.lineno)
+        # a local alias of a draw function: draw = random.random; draw()
+        if isinstance(f, ast.Name) and f.id in gens:
+            ctx = getattr(self, '_gen_ctxs', {}).get(fn.fq)
+            kinds = {kd for _, kd in (ctx[2].get(f.id, []) if ctx else [])}
+            fams = sorted(kd.split(":")[1] for kd in kinds if kd.startswith("fn:"))
+            if fams:
+                return [(Draw(fam, fn.fq, call.lineno, _unparse(call)), False) for fam in fams]
         # generator object methods: rng.choice(...)
         if isinstance(f, ast.Attribute) and isinstance(f.value, ast.Name) and f.value.id in gens:
             name = f.value.id
@@ -328,7 +353,7 @@ class RngAnalysis:
                 ext = TP.ext_stochastic(p)
                 if ext is not None:
                     kw, fam = ext
-                    covered = self._call_passes_seed(call, kw, None, tainted)
+                    covered = self._call_passes_seed(call, kw, TP.EXT_SEED_POS.get(p.split(".")[-1]), tainted)
                     out.append((Draw(fam, fn.fq, call.lineno, _unparse(call)), covered))
             return out
         callees = []
